@@ -28,26 +28,31 @@ type c06Leaf struct {
 }
 
 // The standard result is "X/k=1-4" with measurement i in unit
-// c06Unit(i); unit 2 (mod 4) is written as ns/op and reported as sec/op.
+// c06Unit(i): unit 2 (mod 5) is written as ns/op and reported as sec/op,
+// unit 4 (mod 5) is written directly as sec/op, so one base unit occurs
+// under two spellings inside one result (and across results seen by one
+// Filter value).
 func c06Unit(i int) (unit, orig string) {
-	switch i % 4 {
+	switch i % 5 {
 	case 0:
 		return "ua", ""
 	case 1:
 		return "ub", ""
 	case 2:
 		return "sec/op", "ns/op"
+	case 3:
+		return "uc", ""
 	}
-	return "uc", ""
+	return "sec/op", ""
 }
 
 var c06Leaves = []c06Leaf{
 	{`.name:X`, func(i int) bool { return true }},
 	{`.name:Y`, func(i int) bool { return false }},
-	{`.unit:ua`, func(i int) bool { return i%4 == 0 }},
-	{`.unit:/^(ub|sec.op)$/`, func(i int) bool { return i%4 == 1 || i%4 == 2 }},
+	{`.unit:ua`, func(i int) bool { return i%5 == 0 }},
+	{`.unit:/^(ub|sec.op)$/`, func(i int) bool { return i%5 == 1 || i%5 == 2 || i%5 == 4 }},
 	{`*`, func(i int) bool { return true }},
-	{`.unit:(uc OR "ns/op")`, func(i int) bool { return i%4 == 3 || i%4 == 2 }},
+	{`.unit:(uc OR "ns/op")`, func(i int) bool { return i%5 == 3 || i%5 == 2 }},
 	{`/k:(7 OR 1)`, func(i int) bool { return true }},
 	{`/gomaxprocs:/^[0-3]$/`, func(i int) bool { return false }},
 }
@@ -260,7 +265,7 @@ func c06CheckText(text string, want func(i int) bool, results []*benchfmt.Result
 
 type c06Case struct {
 	Text string
-	Want []bool // per measurement index mod 4
+	Want []bool // per measurement index mod 5
 	List string // optional fixed-list projection parsed with the filter
 }
 
@@ -276,9 +281,9 @@ func c06Replay(raw json.RawMessage) string {
 	var msg string
 	p := mc.Catch(func() {
 		if cs.List != "" {
-			msg = c06CheckList(cs.Text, cs.List, func(i int) bool { return cs.Want[i%4] }, results)
+			msg = c06CheckList(cs.Text, cs.List, func(i int) bool { return cs.Want[i%5] }, results)
 		} else {
-			msg = c06CheckText(cs.Text, func(i int) bool { return cs.Want[i%4] }, results)
+			msg = c06CheckText(cs.Text, func(i int) bool { return cs.Want[i%5] }, results)
 		}
 	})
 	if p != "" {
@@ -288,7 +293,7 @@ func c06Replay(raw json.RawMessage) string {
 }
 
 func wantVec(n *fnode) []bool {
-	return []bool{n.eval(0), n.eval(1), n.eval(2), n.eval(3)}
+	return []bool{n.eval(0), n.eval(1), n.eval(2), n.eval(3), n.eval(4)}
 }
 
 func c06Trees(c *mc.Check, maxNodes int) {
@@ -318,8 +323,8 @@ func c06Trees(c *mc.Check, maxNodes int) {
 					nTrue++
 				}
 			}
-			l.Outcome(fmt.Sprintf("matches-%d-of-4-classes", nTrue))
-			if nTrue > 0 && nTrue < 4 {
+			l.Outcome(fmt.Sprintf("matches-%d-of-5-classes", nTrue))
+			if nTrue > 0 && nTrue < 5 {
 				l.Nontrivial++
 			}
 			for style := 0; style < 4; style++ {
